@@ -15,6 +15,7 @@ CONSTANTS
   CallValues = {0, 1}
   CallReqs <- TokCallReqs
   CreateValues = {}
+  NatTargets = {}
 INVARIANTS TypeOK GasNeverGrows Conservation FinalState
 PROPERTIES FrameAtomic ValueStaysWithCaller
 ACTION_CONSTRAINT Edge
